@@ -247,6 +247,20 @@ class RecordElem:
                 args.append(e.unwrap(y))
         return self.sort.constructor(0)(*args)
 
+    def sample(self, rng):
+        vals = {}
+        for n, comps, is_tuple in self._parts():
+            xs = []
+            for _, e in comps:
+                if isinstance(e, EnumElem):
+                    xs.append(rng.choice(list(e.cls)))
+                elif isinstance(e, CardElem):
+                    xs.append(V.concrete_card(rng.randrange(52)))
+                else:
+                    xs.append(rng.randint(0, 5))
+            vals[n] = tuple(xs) if is_tuple else xs[0]
+        return SObj(self.cls, vals, frozen=True)
+
     def default(self):
         vals = {}
         for n, comps, is_tuple in self._parts():
@@ -301,6 +315,8 @@ class Seq(Shape):
             return SList([rng.choice(list(self.elem.cls)) for _ in range(n)])
         if isinstance(self.elem, CardElem):
             return SList([V.concrete_card(rng.randrange(52)) for _ in range(n)])
+        if isinstance(self.elem, RecordElem):
+            return SList([self.elem.sample(rng) for _ in range(n)])
         return SList([rng.randint(-5, 5) for _ in range(n)])
 
     def fresh(self, ctx, name):
@@ -471,6 +487,34 @@ class DecodedStr(Shape):
         return SDecoded(Bytes().fresh(ctx, name))
 
 
+class TraceList(Shape):
+    """Output trace (chunks written, messages sent ...): the list of what has been appended since
+    the enclosing havoc point.  Contracts state appended deltas (new == old + [...]), so resetting
+    the trace to [] when it is havocked loses nothing."""
+
+    def sample(self, rng):
+        return SList([])
+
+    def fresh(self, ctx, name):
+        return SList([])
+
+    def havoc(self, ctx, obj, name):
+        # at a call site: the callee's postcondition defines the new trace by an equation
+        # (new == old + [...]); until then the list is "pending" and must not be read
+        obj.items = [V.PENDING]
+
+
+class TraceReset(Shape):
+    """Loop-level havoc of a trace: restart it at [] (the trace then holds what one iteration
+    appends)."""
+
+    def fresh(self, ctx, name):
+        return SList([])
+
+    def havoc(self, ctx, obj, name):
+        obj.items = []
+
+
 class EmptyList(Shape):
     def sample(self, rng):
         return SList([])
@@ -554,10 +598,17 @@ class FnContract:
         self.note = d.get('note', '')
         self.reify = d.get('reify')
         self.split = d.get('split')
+        # verified against its own contract as a unit, but inlined at call sites (its contract
+        # speaks about ghost parameters that a caller cannot supply); reported in evidence
+        self.inline_at_calls = d.get('inline_at_calls', self.__dict__.get('inline_at_calls', False)) or \
+            ('fresh_params' in d)
         # fresh_params(ctx) -> {param: value}: parameters that are generated jointly (a message
         # together with the value it encodes); sample_params(rng) is its native counterpart
         self.fresh_params = _plain(d['fresh_params']) if 'fresh_params' in d else None
         self.sample_params = _plain(d['sample_params']) if 'sample_params' in d else None
+        # params_from_ghosts({ghost_x: value}) -> {param: value}: rebuild the real arguments from the
+        # (lowered) ghost values of a counter-model, for native replay
+        self.params_from_ghosts = _plain(d['params_from_ghosts']) if 'params_from_ghosts' in d else None
 
     def shape_of(self, pname, registry):
         if pname in self.shapes:
